@@ -61,6 +61,51 @@ theorem iterCycle_linear {n : Nat} {ls : List (Level K S)} (h : HierOK sm direct
     show (cycle prm sm direct ls st.2 (vlin a f b g) st.1).1 = _
     rw [hx]; exact ok.linear a b _ _ _ f g _ _ hl hl1 hl2 hf hg hx1 hx2
 
+theorem apply_len {n : Nat} {ls : List (Level K S)} (h : HierOK sm direct n ls) (scr : List (Scratch K))
+    (f : Vec K) (hl : scr.length = ls.length) : (apply prm sm direct ls scr f).2.length = ls.length := by
+  unfold apply
+  split
+  · exact hl
+  · exact iterCycle_len prm sm direct h f _ _ hl
+
+theorem apply_indep {n : Nat} {ls : List (Level K S)} (h : HierOK sm direct n ls) (scr scr' : List (Scratch K))
+    (f : Vec K) (hl : scr.length = ls.length) (hl' : scr'.length = ls.length) :
+    (apply prm sm direct ls scr f).1 = (apply prm sm direct ls scr' f).1 := by
+  unfold apply
+  split
+  · rfl
+  · exact iterCycle_indep prm sm direct h f _ _ _ rfl hl hl'
+
+theorem apply_linear' {n : Nat} {ls : List (Level K S)} (h : HierOK sm direct n ls) (a b : K)
+    (scr scr1 scr2 : List (Scratch K)) (f g : Vec K) (hf : f.size = n) (hg : g.size = n)
+    (hl : scr.length = ls.length) (hl1 : scr1.length = ls.length) (hl2 : scr2.length = ls.length) :
+    (apply prm sm direct ls scr (vlin a f b g)).1 =
+      vlin a (apply prm sm direct ls scr1 f).1 b (apply prm sm direct ls scr2 g).1 := by
+  unfold apply
+  split
+  · simp only [vcopy_eq]
+  · refine iterCycle_linear prm sm direct h a b f g _ _ _ _ hf hg ?_ ?_ ?_ hl hl1 hl2
+    · simp [vclear_size, hf]
+    · simp [vclear_size, hg]
+    · show vclear (vlin a f b g).size = vlin a (vclear f.size) b (vclear g.size)
+      rw [vlin_size, hf, hg]; exact vclear_vlin a b n
+
+/-- a sequence of preconditioner applications on ONE object: the scratch left by each call is handed to the next -/
+def applyHistory (prm : Params) (sm : Smoother K S) (direct : CRS K → Vec K → Vec K) (ls : List (Level K S)) :
+    List (Scratch K) → List (Vec K) → List (Vec K)
+  | _, [] => []
+  | scr, f :: fs =>
+    (apply prm sm direct ls scr f).1 :: applyHistory prm sm direct ls (apply prm sm direct ls scr f).2 fs
+
+theorem applyHistory_eq {n : Nat} {ls : List (Level K S)} (h : HierOK sm direct n ls) (fs : List (Vec K))
+    (scr scr0 : List (Scratch K)) (hl : scr.length = ls.length) (hl0 : scr0.length = ls.length) :
+    applyHistory prm sm direct ls scr fs = fs.map (fun f => (apply prm sm direct ls scr0 f).1) := by
+  induction fs generalizing scr with
+  | nil => rfl
+  | cons f fs ih =>
+    simp only [applyHistory, List.map_cons]
+    rw [apply_indep prm sm direct h scr scr0 f hl hl0, ih _ (apply_len prm sm direct h scr f hl)]
+
 end apply
 
 section link
